@@ -230,6 +230,11 @@ func runC11(c *Ctx) {
 	if len(streams) >= 2 {
 		s.Probe("c11.reopened")
 	}
+	for _, e := range s.LibEvents() {
+		if strings.Contains(e, "response truncated") {
+			s.Violate("C11|stream-not-ended-in-order", "a stream the server itself ends (replaced, session deleted) must end like any response, not like a broken connection: %s", e)
+		}
+	}
 	// the old stream is closed by the server when a newer one takes over
 	for i, st := range streams {
 		if i+1 < len(streams) && !st.closed && !st.rs.Ended() {
